@@ -7,8 +7,8 @@
      maps (relative?, control points) to the new state and the exact curves ("sections") it denotes,
      with the same index arithmetic as the C++ (`points[count - 2]`, triples / pairs, one reference
      point per call);
-   * the step rule `angle = 2*acos(1 - curvature*tolerance)` of append_cubic/quad/bezier: the
-     condition under which its argument leaves [-1,1], as a rational inequality;
+   * the step rule `angle = 2*(c < -1 ? pi : acos c)`, c = 1 - curvature*tolerance, of
+     append_cubic/quad/bezier: the condition of the clamp branch as a rational inequality;
    * an exact integer point-segment distance test used as the oracle of the run-time validation;
    * rectangle / cross vertex formulas.
 
@@ -234,8 +234,8 @@ Definition run_call (st : cstate) (c : call) : option (cstate * list section) :=
   | CBezier rel ps =>
       if (length ps <? 2)%nat then None
       else let ctrl := ref :: map (off rel ref) ps in
-           (* `last_ctrl = points[points.count - 2];` -- the reference point is NOT added *)
-           Some (mkst (last ctrl pzero) (nth (length ps - 2) ps pzero), [SBez ctrl])
+           (* `last_ctrl = ctrl[ctrl.count - 2];` (absolute, after fix 7a14b8c) *)
+           Some (mkst (last ctrl pzero) (nth (length ctrl - 2) ctrl pzero), [SBez ctrl])
   | CInterp rel cycle ps hob =>
       let pts := map (off rel ref) ps ++ (if cycle then [ref] else []) in
       if negb (length hob =? length pts)%nat || (length pts =? 0)%nat then None
@@ -326,10 +326,6 @@ Definition requested_ends (st : cstate) (c : call) : list pt :=
 (* calls whose first inner control point is the reflection of the previous last_ctrl *)
 Definition is_smooth (c : call) : bool :=
   match c with CCubicSmooth _ _ | CQuadSmooth1 _ _ | CQuadSmooth _ _ => true | _ => false end.
-(* the one call whose last_ctrl is wrong on the current tree (F17) *)
-Definition is_rel_bezier (c : call) : bool :=
-  match c with CBezier true _ => true | _ => false end.
-
 (* arcs are not Bezier sections: their last_ctrl is the end point plus the given vector *)
 Definition is_arc (c : call) : bool := match c with CArc _ _ => true | _ => false end.
 
@@ -364,23 +360,26 @@ Definition deriv2 (ctrl : list pt) : list pt :=
 
 Definition parallel_eps : Q := 1 # 100000000.   (* GDSTK_PARALLEL_EPS 1e-8 *)
 
-(* curvature = |dc x d2c| / |dc|^3.  The C++ takes the acos branch when len_dc > 0 and
-   curvature >= GDSTK_PARALLEL_EPS; acos(1 - curvature*tolerance) is NaN iff
-   curvature*tolerance > 2 (the argument is never > 1), i.e. iff
-   (dc x d2c)^2 * tol^2 > 4 * |dc|^6.  (Equivalence with the square-root form: ArcBound.v,
-   step_rule_rational_lemma.) *)
-Definition step_rule_nan_condition (dc d2c : pt) (tol : Q) : Prop :=
+(* curvature = |dc x d2c| / |dc|^3.  The C++ reaches the step rule when len_dc > 0 and
+   curvature >= GDSTK_PARALLEL_EPS:
+       const double cos_half = 1 - curvature * tolerance;
+       double angle = 2 * (cos_half < -1 ? M_PI : acos(cos_half));
+   The clamp branch is taken iff curvature*tolerance > 2, i.e. iff
+   (dc x d2c)^2 * tol^2 > 4 * |dc|^6  (equivalence with the square-root form: ArcBound.v,
+   step_rule_rational_lemma; the angle is always defined: step_rule_defined_lemma).  Before fix
+   66f871b the code evaluated acos(cos_half) there and appended a NaN vertex (F11). *)
+Definition step_rule_clamp_condition (dc d2c : pt) (tol : Q) : Prop :=
   0 < norm2 dc
   /\ parallel_eps * parallel_eps * qpow (norm2 dc) 3 <= cross dc d2c * cross dc d2c
   /\ 4 * qpow (norm2 dc) 3 < cross dc d2c * cross dc d2c * (tol * tol).
-Definition step_rule_nan_b (dc d2c : pt) (tol : Q) : bool :=
+Definition step_rule_clamp_b (dc d2c : pt) (tol : Q) : bool :=
   let n := norm2 dc in let c := cross dc d2c in
   negb (Qle_bool n 0)
   && Qle_bool (parallel_eps * parallel_eps * qpow n 3) (c * c)
   && negb (Qle_bool (c * c * (tol * tol)) (4 * qpow n 3)).
 (* at parameter t of a section *)
-Definition step_nan_at (ctrl : list pt) (tol t : Q) : bool :=
-  step_rule_nan_b (decasteljau t (deriv1 ctrl)) (decasteljau t (deriv2 ctrl)) tol.
+Definition step_clamp_at (ctrl : list pt) (tol t : Q) : bool :=
+  step_rule_clamp_b (decasteljau t (deriv1 ctrl)) (decasteljau t (deriv2 ctrl)) tol.
 
 (* "control directions span less than a quarter turn": all non-zero edges of the control polygon
    have pairwise positive inner products *)
